@@ -1,10 +1,15 @@
 #!/bin/bash
-# usage: tools/run_all.sh [quick|thorough] — runs every claimed check sequentially, prints one line each
+# usage: tools/run_all.sh [quick|thorough] — runs every claimed check sequentially, prints one line each.
+# Works from any copy of /verif (uses the directory it lives in; evidence/replays go there too).
 tier=${1:-quick}
-cd /verif; ./build.sh || exit 2
+here="$(cd "$(dirname "$0")/.." && pwd)"
+cd "$here"; ./build.sh || exit 2
+export VERIF_DIR="$here"
+mkdir -p work
 for id in $(./bin/vmon list); do
   s=$(date +%s)
   out=$(./bin/vmon check $id $tier 2>&1); rc=$?
   e=$(date +%s)
-  echo "$id rc=$rc $((e-s))s known=$(echo "$out" | grep -c '^KNOWN-FINDING') viol=$(echo "$out" | grep -c '^VIOLATION') :: $(echo "$out" | tail -1 | cut -c1-160)"
+  [ $rc -ne 0 ] && echo "$out" > work/fail-$id-$tier-s${VERIF_SEED:-1}.out
+  echo "seed=${VERIF_SEED:-1} $id rc=$rc $((e-s))s known=$(echo "$out" | grep -c '^KNOWN-FINDING') viol=$(echo "$out" | grep -c '^VIOLATION') :: $(echo "$out" | grep '^violated\|^INCONCLUSIVE\|held on' | head -1 | cut -c1-200)"
 done
